@@ -70,3 +70,51 @@ Lemma ictx_values cfg s : ictx cfg s ->
 Proof.
   intros H. split; [exact (i_R_word cfg s H)|]. split; [exact (ok_cpsr cfg s (i_ok cfg s H))|exact (ok_R_len cfg s (i_ok cfg s H))].
 Qed.
+
+(* ---- only N, Z, C, V of the CPSR can change when the destination is not the PC: mode, A/I/F, E, T, J, IT, GE, Q are kept ---- *)
+Lemma insert_hi_low27 p i x : 0 <= p -> 28 <= i -> 0 <= x <= 1 -> bits (insert p i i x) 27 0 = bits p 27 0 /\ 0 <= insert p i i x.
+Proof.
+  intros Hp Hi Hx. split; [|apply insert_nonneg; lia]. apply bits_insert_other; try lia.
+  replace (i - i + 1) with 1 by lia. change (2 ^ 1) with 2. lia.
+Qed.
+Lemma with_flags_low27 p r c v : 0 <= p ->
+  match c with Some c => 0 <= c <= 1 | None => True end -> match v with Some v => 0 <= v <= 1 | None => True end ->
+  bits (with_flags p r c v) 27 0 = bits p 27 0.
+Proof.
+  intros Hp Hc Hv. unfold with_flags. cbv zeta.
+  assert (Hz : 0 <= (if r =? 0 then 1 else 0) <= 1) by (destruct (r =? 0); lia).
+  destruct (insert_hi_low27 p 31 (bit r 31) Hp ltac:(lia) (bit_range r 31)) as [E1 N1].
+  destruct (insert_hi_low27 _ 30 _ N1 ltac:(lia) Hz) as [E2 N2].
+  set (p2 := insert (insert p 31 31 (bit r 31)) 30 30 (if r =? 0 then 1 else 0)) in *.
+  assert (H3 : bits (match c with Some c => insert p2 29 29 c | None => p2 end) 27 0 = bits p 27 0 /\
+               0 <= match c with Some c => insert p2 29 29 c | None => p2 end).
+  { destruct c as [c|]; [|split; [rewrite E2, E1; reflexivity|exact N2]].
+    destruct (insert_hi_low27 p2 29 c N2 ltac:(lia) Hc) as [E3 N3]. split; [rewrite E3, E2, E1; reflexivity|exact N3]. }
+  destruct H3 as [E3 N3]. destruct v as [v|]; [|exact E3].
+  destruct (insert_hi_low27 _ 28 v N3 ltac:(lia) Hv) as [E4 _]. rewrite E4. exact E3.
+Qed.
+
+Theorem dp_sem_cpsr_low cfg opA S dest n o s s' : ictx cfg s -> 0 <= n <= 15 -> op2_valid o ->
+  match dest with Some d => 0 <= d <= 14 | None => True end ->
+  dp_sem cfg opA S dest n o s = Ok tt s' -> bits (cpsr_of s') 27 0 = bits (cpsr_of s) 27 0.
+Proof.
+  intros Hctx Hn Ho Hd. unfold dp_sem.
+  destruct (eval_op2_range cfg s o Hctx Ho) as [W2 Wc]. destruct (eval_op2 s o) as [op2 shc]. cbn [fst snd] in W2, Wc.
+  pose proof (dp_alu_range opA (rget s n) op2 (psr_C (cpsr_of s)) (word_rget cfg s n Hctx Hn) W2 (psr_C_range _)) as [Wr Wf].
+  destruct (dp_alu opA (rget s n) op2 (psr_C (cpsr_of s))) as [result cv]. cbn [fst snd] in Wr, Wf.
+  pose proof (ok_cpsr cfg s (i_ok cfg s Hctx)) as Wp.
+  assert (Low : bits (with_flags (cpsr_of s) result (match cv with Some (c, _) => Some c | None => shc end)
+                        (match cv with Some (_, v) => Some v | None => None end)) 27 0 = bits (cpsr_of s) 27 0).
+  { apply with_flags_low27; [destruct Wp; lia| |].
+    - destruct cv as [[c0 v0]|]; [apply Wf|exact Wc].
+    - destruct cv as [[c0 v0]|]; [apply Wf|exact I]. }
+  assert (Lset : forall st p, (0 < length (sys st))%nat -> cpsr_of (with_cpsr st p) = p).
+  { intros st p HL. unfold cpsr_of, with_cpsr. cbn [sys set_sys]. apply getl_setl_same. lia. }
+  pose proof (ok_sys_len cfg s (i_ok cfg s Hctx)) as HL.
+  destruct dest as [d|].
+  - replace (d =? 15) with false by lia.
+    destruct (S =? 0); intros H; inversion H.
+    + reflexivity.
+    + rewrite Lset; [exact Low|]. unfold rset, mark_changed. cbn [sys set_R set_changed]. rewrite HL. unfold enums.n_sys. lia.
+  - intros H. inversion H. rewrite Lset; [exact Low|]. rewrite HL. unfold enums.n_sys. lia.
+Qed.
